@@ -40,7 +40,7 @@ type Profile struct {
 
 func baseWeights() map[string]int {
 	return map[string]int{"aol": 30, "aolAdv": 8, "did": 18, "didAdv": 8, "pnft": 22, "pnftAdv": 8, "bank": 4, "burn": 3, "vest": 1,
-		"authz": 5, "gov": 1, "crisis": 1, "boundary": 4, "multiDefect": 2, "hostile": 3, "tamper": 4, "replay": 4, "multi": 5, "hquery": 2, "rollback": 4}
+		"authz": 5, "gov": 1, "crisis": 1, "group": 2, "boundary": 4, "multiDefect": 2, "hostile": 3, "tamper": 4, "replay": 4, "multi": 5, "hquery": 2, "rollback": 4}
 }
 
 func profileFor(prop, tier string, rng *PRNG) *Profile {
@@ -112,6 +112,7 @@ func profileFor(prop, tier string, rng *PRNG) *Profile {
 	case "C09":
 		boost("rollback", 3)
 		boost("gov", 4)
+		boost("group", 4)
 		boost("multiDefect", 6)
 		p.Replicas = [2]int{3, 4}
 		p.PCrash, p.PLag, p.PReconfig = 0.1, 0.1, 0.08
@@ -197,7 +198,7 @@ func profileFor(prop, tier string, rng *PRNG) *Profile {
 	if rng.Chance(0.3) {
 		p.PRestart0 = 0
 	}
-	for _, k := range []string{"bank", "burn", "vest", "authz", "hquery", "hostile", "boundary", "multiDefect", "gov", "crisis"} {
+	for _, k := range []string{"bank", "burn", "vest", "authz", "hquery", "hostile", "boundary", "multiDefect", "gov", "crisis", "group"} {
 		if rng.Chance(0.25) && p.W[k] < 40 {
 			p.W[k] = 0
 		}
@@ -230,6 +231,8 @@ type Gen struct {
 	built       map[int][]sdk.Msg
 	upgraded    bool
 	boundaryPos int
+	nPolicies    int
+	policyAdmins []string
 	vlong       bool // the genesis holds the 65 5xx-record topic
 	hostilePos  int
 	whale       bool
@@ -495,6 +498,14 @@ func (g *Gen) emit(t *TxSpec) int {
 			t.Fee2Den, t.Fee2Amt = "uatom", "50"
 		}
 	}
+	if t.Gas == 0 && t.ReplayOf == 0 && g.rng.Chance(map[bool]float64{true: 0.12, false: 0.04}[g.prop == "C15"]) {
+		// a gas limit somewhere between "not enough for the ante chain" and "just enough": the meter may run out at any
+		// store access inside a handler, after some of its writes
+		t.Gas = uint64(g.rng.Range(40_000, 160_000))
+		if len(t.Msgs) > 1 {
+			t.Gas += uint64(g.rng.Range(0, 120_000))
+		}
+	}
 	// the standard delegation path with no delegation needed: the signer wraps its own single message in MsgExec
 	if len(t.Msgs) == 1 && t.SignOver == nil && t.Signers == nil && t.ReplayOf == 0 && customURLs[t.Msgs[0].T] != "" && g.rng.Chance(0.06) {
 		if who := selfActor(&t.Msgs[0]); who != "" {
@@ -625,6 +636,8 @@ func (g *Gen) family(f string) {
 		g.famGov()
 	case "crisis":
 		g.famCrisis()
+	case "group":
+		g.famGroup()
 	case "multiDefect":
 		g.famMultiDefect()
 	case "pnftAdv":
@@ -1084,7 +1097,16 @@ func (g *Gen) famDidAdv() {
 		if r.Chance(0.3) {
 			raw = base58.Encode(append([]byte{4}, Keyed(uint64(k), "uncompressed", 0).Bytes(64)...))
 		}
+		oddType := ""
+		if r.Chance(0.4) {
+			// ... or a perfectly good key under a type nothing can verify: known but not implemented, or not known at all
+			// (any non-empty type string is a legal document)
+			oddType = []string{"Ed25519VerificationKey2020", "UnheardOfKey2031", "JsonWebKey2020", "X25519KeyAgreementKey2019", "Bls12381G1Key2020", "ecdsasecp256k1verificationkey2019", "EcdsaSecp256k1VerificationKey2019 "}[r.Intn(7)]
+		}
 		bad := func(d string) VMSpec {
+			if oddType != "" {
+				return VMSpec{Id: d + "#key" + fmt.Sprint(other) + "-odd", Type: oddType, Controller: d, Key: other}
+			}
 			return VMSpec{Id: d + "#key" + fmt.Sprint(k) + "-odd", Type: []string{"EcdsaSecp256k1VerificationKey2019", "Secp256k1VerificationKey2018"}[r.Intn(2)], Controller: d, Key: -1, RawKey: raw}
 		}
 		if r.Chance(0.4) {
@@ -1526,6 +1548,71 @@ func (g *Gen) famCrisis() {
 	g.emit(&TxSpec{Gas: 5_000_000, Msgs: []MsgSpec{M("crisis.VerifyInvariant", "sender", g.addr(r.Intn(NumAccounts)), "module", rt[0], "route", rt[1])}})
 }
 
+// famGroup: custom messages that a group policy account proposes and x/group executes at once. Only messages that must
+// FAIL are used (the policy account owns nothing and holds no key): the transaction succeeds, and the error text of the
+// failed execution becomes part of an event - of the transaction result every replica must agree on.
+func (g *Gen) famGroup() {
+	r := g.rng
+	if g.nPolicies == 0 || r.Chance(0.25) {
+		admin := g.addr(r.Intn(NumAccounts))
+		g.emit(&TxSpec{Gas: 3_000_000, Msgs: []MsgSpec{M("group.CreateWithPolicy", "admin", admin)}})
+		g.nPolicies++
+		g.policyAdmins = append(g.policyAdmins, admin)
+		if r.Chance(0.5) {
+			return
+		}
+	}
+	seq := 1 + r.Intn(g.nPolicies)
+	var inner []MsgSpec
+	for i := r.Range(1, 2); i > 0; i-- {
+		switch r.Intn(8) {
+		case 0, 1, 2: // a DID message naming a method that is declared but is no authentication method / with a foreign proof
+			if act := g.planDids(true); len(act) > 0 {
+				did := act[r.Intn(len(act))]
+				mid := did + "#nope"
+				if e := g.plan.Did[did]; e != nil && e.Doc != nil {
+					var ids []string
+					for _, vm := range e.Doc.VerificationMethods {
+						if vm != nil {
+							ids = append(ids, vm.Id)
+						}
+					}
+					if len(ids) > 0 {
+						mid = ids[r.Intn(len(ids))]
+					}
+				}
+				p := &ProofSpec{Key: r.Intn(NumDidKeys), MethodID: mid, Seq: "cur", RawSig: hex.EncodeToString(Keyed(uint64(seq), "group-sig", uint64(g.next)).Bytes(64))}
+				if r.Chance(0.5) {
+					inner = append(inner, MsgSpec{T: "did.Update", F: map[string]string{"did": did, "from": "@policy"}, Doc: g.didDoc(did, []int{r.Intn(NumDidKeys)}, 0), Proof: p})
+				} else {
+					inner = append(inner, MsgSpec{T: "did.Deactivate", F: map[string]string{"did": did, "from": "@policy"}, Proof: p})
+				}
+			}
+		case 3:
+			inner = append(inner, M("aol.AddWriter", "topic", "no-such-topic-of-the-policy", "owner", "@policy", "writer", g.addr(r.Intn(NumAccounts))))
+		case 4:
+			if ts := g.planTopics(); len(ts) > 0 {
+				t := ts[r.Intn(len(ts))]
+				inner = append(inner, g.recordSpec(t[0], t[1], "@policy", ""))
+			}
+		case 5:
+			if ds := g.planDenoms(); len(ds) > 0 {
+				inner = append(inner, M("pnft.Mint", "denom", ds[r.Intn(len(ds))], "id", "by-policy", "name", "n", "creator", "@policy"))
+			}
+		case 6:
+			if ds := g.planDenoms(); len(ds) > 0 {
+				inner = append(inner, M("pnft.DeleteDenom", "id", ds[r.Intn(len(ds))], "remover", "@policy"))
+			}
+		case 7:
+			inner = append(inner, M("pnft.Transfer", "denom", "no-such-denom", "id", "x", "sender", "@policy", "receiver", g.addr(r.Intn(NumAccounts))))
+		}
+	}
+	if len(inner) == 0 {
+		return
+	}
+	g.emit(&TxSpec{Gas: 5_000_000, Msgs: []MsgSpec{{T: "group.Propose", F: map[string]string{"proposer": g.policyAdmins[seq-1], "policy_seq": fmt.Sprint(seq)}, Inner: inner}}})
+}
+
 func (g *Gen) famBank() {
 	r := g.rng
 	if r.Chance(0.2) {
@@ -1547,6 +1634,25 @@ func (g *Gen) famGov() {
 		c := combos[r.Intn(len(combos))]
 		g.emit(&TxSpec{Gas: 2_000_000, Msgs: []MsgSpec{{T: "gov.SubmitLegacyParam", F: map[string]string{"proposer": g.addr(r.Intn(NumAccounts)), "subspace": c[0], "key": c[1], "value": c[2]},
 			Coins: []CoinSpec{{Denom: FeeDenom, Amount: "1"}}}}})
+		return
+	}
+	if extra := g.extraDenoms(); len(extra) > 0 && r.Chance(0.2) {
+		// transfers of one of the other denominations are switched off by governance (and sometimes on again): MsgSend
+		// refuses that denomination from then on; what already sits at the burn address, unlocks there later or arrives
+		// through a module still has to be burnt
+		g.nProposals++
+		den := extra[r.Intn(len(extra))]
+		en := "false"
+		if r.Chance(0.2) {
+			en = "true"
+		}
+		g.emit(&TxSpec{Gas: 2_000_000, Msgs: []MsgSpec{{T: "gov.SubmitSendEnabled", F: map[string]string{"proposer": g.addr(r.Intn(NumAccounts)), "denom": den, "enabled": en},
+			Coins: []CoinSpec{{Denom: FeeDenom, Amount: "1"}}}}})
+		g.emit(&TxSpec{Gas: 2_000_000, Msgs: []MsgSpec{{T: "gov.Vote", F: map[string]string{"proposal": fmt.Sprint(g.nProposals), "voter": g.addr(0), "option": "yes"}}}})
+		// coins of that denomination on their way to the burn address while the vote is open
+		for i := r.Range(1, 3); i > 0; i-- {
+			g.tx(MsgSpec{T: "bank.Send", F: map[string]string{"from": g.addr(r.Intn(NumAccounts)), "to": BurnAddress}, Coins: []CoinSpec{{Denom: den, Amount: fmt.Sprint(r.Range(1, 500))}}})
+		}
 		return
 	}
 	if r.Chance(0.35) {
@@ -1583,6 +1689,17 @@ func (g *Gen) famGov() {
 		}
 		g.emit(&TxSpec{Gas: 2_000_000, Msgs: []MsgSpec{{T: "gov.Vote", F: map[string]string{"proposal": fmt.Sprint(g.nProposals), "voter": voter, "option": opt}}}})
 	}
+}
+
+func (g *Gen) extraDenoms() []string {
+	var out []string
+	if g.hasAtom {
+		out = append(out, "uatom")
+	}
+	if g.whale {
+		out = append(out, WhaleDenom)
+	}
+	return out
 }
 
 func (g *Gen) famBurn() {
